@@ -86,7 +86,7 @@ func VH_C06_ShortBufferThenNext(version int) {
 
 // H3 (level S): an abandoned exchange on a Transport connection. Call A's context ends after its request was
 // handed to a connection; call B follows; the broker answers A's request first. B must get its own answer.
-func VH_C06_TransportAbandoned() {
+func VH_C06_TransportAbandoned(mode int) {
 	vhConcreteClock(true)
 	dials := 0
 	mkConn := func(node int32, gated bool) *vhFakeConn {
@@ -118,7 +118,12 @@ func VH_C06_TransportAbandoned() {
 	p.ctrl = p.newConnGroup(&networkAddress{network: "tcp", address: "bootstrap:9092"})
 	p.setState(connPoolState{})
 
+	// mode 0: the caller cancels its context; mode 1: the call has a deadline that expires (time passes while the
+	// harness waits for the call to return)
 	ctxA, cancelA := context.WithCancel(context.Background())
+	if mode == 1 {
+		ctxA, cancelA = context.WithTimeout(context.Background(), time.Second)
+	}
 	var resA, resB Response
 	var errA, errB error
 	doneA, doneB := false, false
@@ -133,7 +138,15 @@ func VH_C06_TransportAbandoned() {
 	vhRunAll()
 	vhAssert(dials == 1 && len(conns[0].written) > 0, "request-A-is-in-flight-on-connection-1")
 	vhAssert(!doneA, "call-A-waits-for-its-response")
-	cancelA()
+	if mode == 1 {
+		for i := 0; i < 4 && !doneA; i++ {
+			time.Sleep(2 * time.Second) // time passes: the deadline of call A expires
+		}
+		defer cancelA()
+	} else {
+		cancelA()
+	}
+	vhRunAll()
 	vhRunAll()
 	vhAssert(doneA && errA != nil && resA == nil, "abandoned-call-returns-its-context-error")
 	go func() {
